@@ -529,6 +529,13 @@ func (w *World) Do(c *Call, r *Reply) (outs []reflect.Value, panicked interface{
 		}
 		add(mp)
 	}
+	if c.M.Kind == "REST_METHOD" && idx < mt.NumIn() {
+		// REST methods that declare query parameters (or paging) take them as the last argument
+		if c.Params == nil {
+			c.Params = schema.Base(ParamsType(c.M, ""))
+		}
+		add(toGo(c.Params, mt.In(idx)))
+	}
 	if idx != mt.NumIn() {
 		report.Internal("argument count mismatch calling %s.%s: built %d of %d", c.Res.Namespace, name, idx, mt.NumIn())
 	}
